@@ -377,7 +377,7 @@ func c09Pending(p *core.Prog, r *core.Report) {
 		r.Check(ok, "C09-R3", fname(f), "admission roll-back decrements pending once", p.Pos(f.Pos()), "one decrement between admission and registration failure", "admission roll-back does not undo the pending increment exactly once")
 	}
 	if f := mustFunc(p, r, "", "Relayer", "decrementPending"); f != nil {
-		ok := len(core.CallsIn(f, "Connection.checkExchanges")) == 1
+		ok := len(core.CallsIn(f, "Connection.checkExchanges")) == 1 && onEveryPath(f, "Connection.checkExchanges") && onEveryPath(f, "go.uber.org/atomic.Uint32.Dec")
 		r.Check(ok, "C09-R3", fname(f), "decrement re-evaluates the close state", p.Pos(f.Pos()), "checkExchanges()", "connections waiting for relayed calls are not re-checked")
 	}
 }
